@@ -29,6 +29,7 @@ var Kinds = []string{
 	"contacts", "pais",
 	"cseq", "callid", "uint", "clen", "expires",
 	"tokparam", "uriparams", "urihdrs", "skipquoted",
+	"uri", // one-shot ParseURI behind a buffer-until-FIN receiver (C04/C11/C12 only)
 }
 
 // Reset styles.
@@ -108,6 +109,8 @@ func New(c Cfg) Driver {
 		return d
 	case "skipquoted":
 		return &SkipQuotedD{}
+	case "uri":
+		return &URID{}
 	}
 	panic(fmt.Sprintf("sut.New: unknown driver kind %q", c.Kind))
 }
@@ -442,6 +445,50 @@ func (d *SkipQuotedD) Snap(r *Rec, buf []byte)           {}
 func (d *SkipQuotedD) Reset(how int)                     {}
 func (d *SkipQuotedD) Continues(err sipsp.ErrorHdr) bool { return false }
 
+// ---------------------------------------------------------------- uri
+
+// URID drives ParseURI. ParseURI is one-shot (it documents no resumption), so
+// the receiver buffers until the peer's FIN and then parses the whole text,
+// datagram style. It is here for the object-reuse (C12), start-offset (C11)
+// and crash (C04) monitors; it is not one of C02's resumable parsers.
+type URID struct {
+	U    sipsp.PsipURI
+	Err  sipsp.ErrorURI
+	sub  int // length of the text handed to ParseURI
+	done bool
+}
+
+func (d *URID) Call(buf []byte, offs int, eof bool) (int, sipsp.ErrorHdr) {
+	if !eof {
+		return offs, sipsp.ErrHdrMoreBytes
+	}
+	e, pos := sipsp.ParseURI(buf[offs:], &d.U)
+	d.Err, d.sub, d.done = e, len(buf)-offs, true
+	if e != 0 {
+		return offs + pos, sipsp.ErrHdrBad
+	}
+	return offs + pos, sipsp.ErrHdrOk
+}
+
+func (d *URID) Snap(r *Rec, buf []byte) {
+	// the components are relative to the slice handed to ParseURI
+	ob, ol := r.Base, r.BufLen
+	r.Base, r.BufLen = 0, d.sub
+	if !d.done {
+		r.BufLen = 1 << 20
+	}
+	r.Val("ErrorURI", int64(d.Err))
+	if d.Err == 0 {
+		SnapURI(r, &d.U)
+		l, sh := d.U.Long(), d.U.Short()
+		r.Fld("Long()", l)
+		r.Fld("Short()", sh)
+	}
+	r.Base, r.BufLen = ob, ol
+}
+func (d *URID) Reset(how int)                     { d.U.Reset(); d.Err, d.sub, d.done = 0, 0, false }
+func (d *URID) Continues(err sipsp.ErrorHdr) bool { return false }
+
 // Renew turns d into a brand-new object of configuration c WITHOUT going
 // through the library's Reset/Init: the Go zero value is assigned and the
 // caller arrays are zeroed element by element, which is what a fresh
@@ -516,6 +563,11 @@ func Renew(d Driver, c Cfg) Driver {
 	case *PAIsD:
 		if c.Kind == "pais" {
 			*x = PAIsD{}
+			return x
+		}
+	case *URID:
+		if c.Kind == "uri" {
+			*x = URID{}
 			return x
 		}
 	}
